@@ -670,7 +670,7 @@ def judge_h(cfgh, outs):
         if not val:
             if i == 0 and exp == {"RETL"}:
                 return "history:body-over-max_content_length-not-refused"
-            if i == 0 and exp == {"body"} and a in ("get_data", "get_data-nocache", "data", "form", "values"):
+            if i == 0 and exp == {"body"} and a in ("get_data", "get_data-nocache", "form", "values"):
                 return "history:first-access-empty"
             continue                      # empty because consumed / nothing of that kind / nothing readable
         if refused or exp == {"RETL"}:
